@@ -12,7 +12,7 @@ from simkit.net import ConnectPlan, oserror
 ID = "C24"
 LEVEL = "exploration"
 ENGINE = "simkit/proxy-world"
-QUICK_RUNS = 6000
+QUICK_RUNS = 12000
 QUICK_BUDGET_S = 150
 THOROUGH_BUDGET_S = 900
 CHUNK = 50
